@@ -88,11 +88,12 @@ theorem completeBody_ok (st : Study) (id : Nat) (final : Option Meas) (inf : Boo
         apply putTrial_ok hn hf
         · unfold markCompleted; rw [ht1]; split <;> exact hidt
         · rw [trialStepOK_iff]
-          refine ⟨?_, ?_, ?_⟩
+          refine ⟨?_, ?_, ?_, ?_⟩
           · unfold markCompleted; split <;> rcases hmut' with h | h <;> simp [h, legal]
           · unfold markCompleted; rw [ht1]; split <;> rfl
           · intro hc
             rcases hmut' with h | h <;> simp [h, TState.completed] at hc
+          · intro _; unfold markCompleted; rw [ht1]; split <;> rfl
 
 theorem not_mutable_false {s : TState} (h : ¬ ((!s.mutable) = true)) : s.mutable = true := by
   cases h' : s.mutable with
@@ -113,7 +114,7 @@ theorem addMeasurementBody_ok (st : Study) (id : Nat) (m : Meas) (hn : Nodup' st
         have hmut' := mutable_cases (not_mutable_false hmut)
         refine putTrial_ok hn hf (t := { t with meas := t.meas ++ [m] }) (findTrial_some hf).2 ?_
         rw [trialStepOK_iff]
-        refine ⟨legal_refl _, rfl, fun hc => ?_⟩
+        refine ⟨legal_refl _, rfl, fun hc => ?_, fun _ => rfl⟩
         rcases hmut' with h | h <;> simp [h, TState.completed] at hc
 
 theorem stopBody_ok (st : Study) (id : Nat) (hn : Nodup' st.trials) :
@@ -127,7 +128,7 @@ theorem stopBody_ok (st : Study) (id : Nat) (hn : Nodup' st.trials) :
       have hact' : t.state = .active := by simpa using hact
       refine putTrial_ok hn hf (t := { t with state := .stopping }) (findTrial_some hf).2 ?_
       rw [trialStepOK_iff]
-      refine ⟨by simp [hact', legal], rfl, fun hc => ?_⟩
+      refine ⟨by simp [hact', legal], rfl, fun hc => ?_, fun _ => rfl⟩
       simp [hact', TState.completed] at hc
     · split <;> exact TrialsOK.refl hn
 
